@@ -702,6 +702,27 @@ ENTRIES += [
     M("C17-acrobot-nips", "C17", "C17.6", (ACR, "            + d2 / d1 * phi1\n            - self.link_mass_2\n            * self.link_length_1\n            * self.link_com_pos_2\n            * theta1_d**2\n            * jnp.sin(theta2)\n            - phi2", "            + d2 / d1 * phi1\n            - phi2"), tier="thorough", stale_ok=True),
 ]
 
+GX = "lerax/compatibility/gymnax.py"
+GY = "lerax/compatibility/gym.py"
+ACT = "lerax/policy/actor.py"
+DSP = "lerax/space/dict.py"
+MBS = "lerax/space/multi_binary.py"
+QML = "lerax/policy/q/mlp.py"
+ENTRIES += [
+    # ---------------------------------------------------------------- rules prompted by the seventh seeding round, with passing twins
+    M("S7-gymnax-done-truncation-only", ["C01", "C07", "C13"], ["C01.8", "C07.9", "C13.9"], (GX, "        done = termination | truncation\n        return (\n            observation,", "        done = truncation\n        return (\n            observation,")),
+    V("S7-v-gymnax-done-logical-or", ["C01", "C07", "C13"], (GX, "        done = termination | truncation\n        return (\n            observation,", "        done = jnp.logical_or(truncation, termination)\n        return (\n            observation,")),
+    M("S7-gym-adapter-term-absorbs-trunc", ["C07", "C13"], ["C07.9", "C13.7"], (GY, "                jnp.asarray(terminated, dtype=bool),\n                jnp.asarray(truncated, dtype=bool),\n            )\n\n        observation, reward, terminated, truncated = io_callback(", "                jnp.asarray(terminated or truncated, dtype=bool),\n                jnp.asarray(truncated, dtype=bool),\n            )\n\n        observation, reward, terminated, truncated = io_callback(")),
+    M("S7-box-head-int-of-array-param", "C18", "C18.5", (ACT, "        if action_space.shape:\n            self.scalar = False", "        if int(log_std_init) > 0:\n            raise ValueError(\"log_std_init too large\")\n        if action_space.shape:\n            self.scalar = False")),
+    V("S7-v-box-head-reads-param-metadata", "C18", (ACT, "        if action_space.shape:\n            self.scalar = False", "        if jnp.ndim(log_std_init) > 1 or not isinstance(log_std_init, (int, float, jnp.ndarray)):\n            raise ValueError(\"log_std_init must be a scalar\")\n        if action_space.shape:\n            self.scalar = False")),
+    M("S7-multibinary-flat-size-forces-array", "C18", "C18.5", (MBS, "        return reduce(operator.mul, self.n, 1)", "        return int(jnp.prod(jnp.asarray(self.n)))")),
+    V("S7-v-multibinary-flat-size-math-prod", ["C18", "C14"], (MBS, "        return reduce(operator.mul, self.n, 1)", "        return math.prod(self.n)"), (MBS, "import operator\n", "import math\nimport operator\n")),
+    M("S7-dict-flatten-over-key-set", ["C11", "C14"], ["C11.1", "C14.8"], (DSP, "        parts = [\n            space.flatten_sample(sample[key]) for key, space in self.spaces.items()\n        ]", "        shared = self.spaces.keys() & sample.keys()\n        parts = [self.spaces[key].flatten_sample(sample[key]) for key in shared]")),
+    M("S7-dict-flatten-materialised-set", "C11", "C11.1", (DSP, "        parts = [\n            space.flatten_sample(sample[key]) for key, space in self.spaces.items()\n        ]", "        names = list(set(self.spaces))\n        parts = [self.spaces[key].flatten_sample(sample[key]) for key in names]")),
+    V("S7-v-dict-flatten-checks-key-set", ["C11", "C14"], (DSP, "        parts = [\n            space.flatten_sample(sample[key]) for key, space in self.spaces.items()\n        ]", "        missing = self.spaces.keys() - sample.keys()\n        if missing:\n            raise KeyError(sorted(missing))\n        parts = [\n            space.flatten_sample(sample[key]) for key, space in self.spaces.items()\n        ]")),
+    M("S7-qpolicy-epsilon-or-default", "C16", "C16.7", (QML, "        self.epsilon = epsilon", "        self.epsilon = epsilon or 0.1")),
+]
+
 ENTRIES += [
     # ---------------------------------------------------------------- later additions
     M("C15-sac-bounds-swapped", "C15", "C15.3", (PS, "                high=self.action_space.high,\n                low=self.action_space.low,\n            )\n        else:", "                high=self.action_space.low,\n                low=self.action_space.high,\n            )\n        else:")),
